@@ -15,6 +15,7 @@ func init() {
 	vfRegister("VfRIB_qo", VfRIB_qo)
 	vfRegister("VfRIB_qx2", VfRIB_qx2)
 	vfRegister("VfRIB_t1", VfRIB_t1)
+	vfRegister("VfRIB_t1r", VfRIB_t1r)
 	vfRegister("VfRIB_t2", VfRIB_t2)
 	vfRegister("VfRIB_tOrder", VfRIB_tOrder)
 }
@@ -40,20 +41,27 @@ func VfRIB_qNoFwd() {
 	vfRIBRun(vfRunCfg{noFwd: true, pre: vfPreCfg{nNH: 1, nNHG: 1, members: 1, topKinds: vfTopQ}, fixLow: true, steps: 1, members: 1})
 }
 
-// t1: the full single-step configuration: all slots in either instance, optional payload fields,
-// held REPLACE, all three top-level kinds, both forward-reference modes.
+// t1: all slots (1 next-hop, 1 group, 1 top-level entry of any kind, 1 held operation) in EITHER instance,
+// both forward-reference modes; one fully symbolic operation with <=2 members.
 func VfRIB_t1() {
-	vfRIBRun(vfRunCfg{fwdBoth: true, pre: vfPreCfg{nNH: 1, nNHG: 1, nTop: 1, nHeld: 1, members: 1, topKinds: vfTopAll}, rich: true, steps: 1, members: 2})
+	vfRIBRun(vfRunCfg{fwdBoth: true, pre: vfPreCfg{nNH: 1, nNHG: 1, nTop: 1, nHeld: 1, members: 1, topKinds: vfTopAll}, steps: 1, members: 2})
 }
 
-// t2: two symbolic operations from a smaller pre-state (histories of length 2 after the canonical prefix).
+// t1r: optional payload fields everywhere (tags, backup groups, metadata, held REPLACE) with the
+// lower slots in the default instance; one fully symbolic operation.
+func VfRIB_t1r() {
+	vfRIBRun(vfRunCfg{pre: vfPreCfg{nNH: 1, nNHG: 1, nTop: 1, nHeld: 1, members: 1, topKinds: vfTopQ}, rich: true, fixLow: true, steps: 1, members: 2})
+}
+
+// t2: TWO consecutive symbolic operations from 1 next-hop + 1 group.
 func VfRIB_t2() {
-	vfRIBRun(vfRunCfg{pre: vfPreCfg{nNH: 1, nNHG: 1, nTop: 1, members: 1, topKinds: []int{vfKV4}}, fixLow: true, steps: 2, members: 1})
+	vfRIBRun(vfRunCfg{pre: vfPreCfg{nNH: 1, nNHG: 1, members: 1, topKinds: []int{vfKV4}}, fixLow: true, steps: 2, members: 1})
 }
 
-// tOrder: two held operations and every order of the held-operation walk (map iteration order symbolic).
+// tOrder: two held operations (groups or IPv4 entries) and every order of the held-operation walk;
+// one symbolic next-hop / group ADD or REPLACE.
 func VfRIB_tOrder() {
-	vfRIBRun(vfRunCfg{pre: vfPreCfg{nNH: 1, nNHG: 1, nHeld: 2, members: 1, topKinds: []int{vfKV4}}, fixLow: true, steps: 1, members: 1,
+	vfRIBRun(vfRunCfg{pre: vfPreCfg{nNH: 1, nHeld: 2, members: 1, topKinds: []int{vfKV4}}, fixLow: true, steps: 1, members: 1,
 		typLo: 1, typHi: 2, kinds: []int{vfKNH, vfKNHG}, mapOrder: true})
 }
 
